@@ -445,7 +445,7 @@ def check(pid, tier, seed, replay=None, only_law=None, scale=1.0):
             subprocess.run([exe, "--shrink", src, "--out", small] + (["--known", ",".join(active)] if active else []), env=env_for(), capture_output=True, timeout=3600)
             use = small if os.path.exists(small) and os.path.getsize(small) > 0 else src
             rp = save_replay(pid, use, r["law"] + ("-hang" if is_hang else "-crash"))
-            oks = [run_replay(exe, rp, active, timeout=lawinfo["hang_s"] + 30)[0] for _ in range(3)]
+            oks = [run_replay(exe, rp, active, timeout=lawinfo["hang_s"] * 10 + 120)[0] for _ in range(3)]
             if all(o in ("fail", "died") for o in oks):
                 if is_hang and not lawinfo["hang_is_violation"]:
                     machinery_errors.append("INCONCLUSIVE hang in law %s (termination is not part of this law): %s" % (r["law"], rp))
@@ -455,7 +455,7 @@ def check(pid, tier, seed, replay=None, only_law=None, scale=1.0):
             else:
                 # retry with the unminimised dump
                 rp2 = save_replay(pid, src, r["law"] + "-crashraw")
-                oks2 = [run_replay(exe, rp2, active, timeout=lawinfo["hang_s"] + 30)[0] for _ in range(3)]
+                oks2 = [run_replay(exe, rp2, active, timeout=lawinfo["hang_s"] * 10 + 120)[0] for _ in range(3)]
                 if all(o in ("fail", "died") for o in oks2):
                     violations.append((r["law"], rp2, "crash / sanitizer report (unminimised)"))
                 else:
